@@ -119,7 +119,20 @@ fn main() {
                             c.no_floats = true;
                         }
                         c.escapes = i % 10 == 9;
-                        let prog = if i % 3 == 2 { gen::gen_wild_cfg(s, &c).0 } else { gen::gen_wf(s, &c) };
+                        let mut prog = if i % 3 == 2 { gen::gen_wild_cfg(s, &c).0 } else { gen::gen_wf(s, &c) };
+                        // degenerate shapes a serde attribute could single out: a function with
+                        // an empty body, a struct without attributes (seeded change C20-c)
+                        if i % 8 == 5 {
+                            prog.push(ir::Top::Fn(ir::Fn {
+                                name: format!("stub{i}"),
+                                params: vec![],
+                                result: ir::Ty::Prim(ir::PT::None),
+                                body: vec![],
+                            }));
+                        }
+                        if i % 8 == 6 {
+                            prog.push(ir::Top::Types(format!("Empty{i}"), vec![]));
+                        }
                         let (flags, canon, stacks) = watched(&prog, || codec::check(&prog));
                         writeln!(out, "G 1 {} seed={s}", profile).unwrap();
                         writeln!(out, "P {}", ir::w_prog(&prog)).unwrap();
